@@ -100,6 +100,7 @@ pub fn end_call(r: Result<(), Box<dyn std::any::Any + Send>>) {
             // frames / in-flight pointers of the unwound call are gone
             w.frames.clear();
             w.clean_calls.clear();
+            w.clean_aids.clear();
             w.pinned.clear();
             let mut fl: Vec<Oid> = w.inflight.keys().copied().collect();
             fl.extend(w.glue_targets.iter().copied());
@@ -688,6 +689,19 @@ fn run_action(env: &mut ActionEnv) {
             w.violation(&["C12"], "is-tracing-in-action", sig, "is_tracing() == true inside a cleaning action".into(), false);
         }
         let manual = w.clean_calls.last() == Some(&w.frames.len());
+        // C10: an action runs only because its own Cleanable::clean() was called, or because its
+        // Cleaner is being dropped (the owner's destructor has started)
+        let own_clean = manual && w.clean_aids.last() == Some(&aid);
+        let owner_gone = {
+            let o = &w.objs[owner as usize];
+            o.dropped || o.moved_out && !o.in_box
+        };
+        if !own_clean && !owner_gone && !w.any_panic && !w.panicked_this_call {
+            let why = if manual { "by-clean-of-another-action" } else { "owner-alive-no-clean" };
+            let sig = format!("action-ran-unrequested/{}", why);
+            let d = format!("cleaning action {} of obj{} ran although its clean() was not called and its Cleaner is alive (running clean() is for action {:?})", aid, owner, w.clean_aids.last());
+            w.violation(&["C10"], "action-ran-unrequested", sig, d, false);
+        }
         w.ptr_ops_in_callbacks = true;
         w.frames.push(Frame { kind: Fk::Action, oid: owner, collecting: flags.0, in_batch: false, manual });
         owner
@@ -795,6 +809,7 @@ pub fn do_clean(sel: Sel, top: bool) {
         w.note(|| format!("clean() action {} of obj{}", aid, owner));
         let d = w.frames.len();
         w.clean_calls.push(d);
+        w.clean_aids.push(aid);
     });
     {
         struct G;
@@ -802,6 +817,7 @@ pub fn do_clean(sel: Sel, top: bool) {
             fn drop(&mut self) {
                 w(|w| {
                     w.clean_calls.pop();
+                    w.clean_aids.pop();
                 });
             }
         }
